@@ -930,7 +930,8 @@ PROPS["C10"] = {
 
 ALPHABET = ["loop", "while", "end", "repeat", "let", "declare", "bits", "resetRandom", "program", "init", "memory", "def", "call",
             "C", "X", "Z", "c", "a", "Q", "A", "ite", "random", "signExt", "foo", "n", "0", "1", "07", "09", "0x1F", "0x", "0b101", "0b2",
-            "9223372036854775807", "9223372036854775808", "65", "64", "(", ")", ",", ";", "=", "!=", "<", "<<", "<=", ">", ">>", ">=",
+            "9223372036854775807", "9223372036854775808", "0x7FFFFFFFFFFFFFFF", "0x8000000000000000", "0xFFFFFFFFFFFFFFFF", "0x10000000000000000",
+            "0b" + "1" * 64, "0b1" + "0" * 63, "0777777777777777777777", "01000000000000000000000", "01777777777777777777777", "65", "64", "(", ")", ",", ";", "=", "!=", "<", "<<", "<=", ">", ">>", ">=",
             "+", "-", "*", "/", "%", "&", "|", "^", "!", "~", "#", "$", "_", " ", "  ", "\t", "\r", "\n", "\n", "\r\n", "é", "汉", "\U0001F600", "٣", "a٣"]
 
 
@@ -1224,13 +1225,53 @@ PROPS["C19"] = {
     "trusted_base": [],
 }
 
+def radix_cases(seed, tier):
+    """the same value spelled in every radix and letter case: one verdict, one row"""
+    rng = random.Random(seed ^ 0x8AD1)
+    vals = [0, 1, 7, 8, 255, 2 ** 31, 2 ** 62, 2 ** 63 - 1, 2 ** 63, 2 ** 63 + 1, 2 ** 64 - 1, 2 ** 64, 2 ** 64 + 5] + \
+           [rng.randrange(0, 2 ** 64) for _ in range(6 if tier == "quick" else 200)]
+    sigs = [{"name": "A", "typ": "I", "bits": 64, "default": "0"}, {"name": "Q", "typ": "O", "bits": 64, "default": "-"}]
+    cases = []
+    for i, v in enumerate(vals):
+        spell = [str(v), "0x%x" % v, "0X%X" % v, "0x%X" % v, "0b" + bin(v)[2:], "0B" + bin(v)[2:], "0" + oct(v)[2:]]
+        if v == 0:
+            spell = ["0", "0x0", "0X0", "0b0", "0B0", "00"]
+        for j, sp in enumerate(spell):
+            cases.append({"id": "radix-%d-%d" % (i, j), "kind": "run", "src": "A Q\n%s (%s)\n" % (sp, sp), "sigs": sigs, "layout": [1], "table": [["0"]],
+                          "echo": 0, "wdefault": 0, "faults": [], "max": 10, "seed": 1, "radix_group": i, "radix_value": v})
+    return cases
+
+
+def radix_oracle(cases, impl):
+    groups = {}
+    for c in cases:
+        if "radix_group" in c:
+            groups.setdefault(c["radix_group"], []).append(c)
+    for g, cs in groups.items():
+        seen = None
+        for c in cs:
+            t = impl.get(c["id"]) or []
+            verdict = [r.split()[0] for tag, r in t if tag == "PARSE"]
+            rows = [strip_line(r) for tag, r in t if tag == "ROW"]
+            want_ok = c["radix_value"] < 2 ** 63
+            if verdict and (verdict[0] == "ok") != want_ok:
+                yield c, "literal %s (value %d) is %s; a literal is accepted iff its value fits in 63 bits, whatever its radix" % (c["src"].split()[2], c["radix_value"], verdict[0])
+                break
+            key = (verdict, rows)
+            if seen is None:
+                seen = key
+            elif key != seen:
+                yield c, "the value %d spelled as %s behaves differently from its other spellings" % (c["radix_value"], c["src"].split()[2])
+                break
+
+
 PROPS["C20"] = {
-    "cases": lambda seed, tier: layout_pair_cases("c20", seed, 300 if tier == "quick" else 12000) + lex_cases(seed, 300 if tier == "quick" else 20000),
+    "cases": lambda seed, tier: layout_pair_cases("c20", seed, 300 if tier == "quick" else 12000) + lex_cases(seed, 300 if tier == "quick" else 20000) + radix_cases(seed, tier),
     "tags": ("PARSE", "BIND", "ROW", "ITEM", "END", "TOK"),
     "nontrivial": lambda c, t: True,
     "oracles": [no_panic_oracle],
-    "pair_oracles": [layout_pair_oracle],
-    "rule": "(1) pairs (program, re-laid-out variant: other amounts of blank space incl. tabs and CR, comments appended to lines, blank and comment-only lines inserted, every literal re-spelled in a random radix "
+    "pair_oracles": [layout_pair_oracle, radix_oracle],
+    "rule": "(0) every one of a set of boundary and random values up to 2^64+5 spelled in decimal, 0x/0X hex in both letter cases, 0b/0B binary and leading-zero octal: same verdict (accepted iff < 2^63) and same row; (1) pairs (program, re-laid-out variant: other amounts of blank space incl. tabs and CR, comments appended to lines, blank and comment-only lines inserted, every literal re-spelled in a random radix "
             "with random letter case): both go through the implementation and are compared pairwise (same verdict, same rows except line) and each against the model; (2) token-boundary stress texts "
             "(0x1F next to identifiers, << vs < <, != vs ! =, keywords as prefixes of identifiers, CR before LF, non-ASCII digits in identifiers) lexed by the crate's REAL logos lexers through the verif-hooks "
             "functions and by the model scanner, token by token with spans",
@@ -1276,13 +1317,17 @@ PROPS["C10"]["cases"] = lambda seed, tier: _c10_base(seed, tier) + [dict(c, id="
 # ------------------------------------------------------------------ C15: determinism
 
 def c15_cases(seed, tier):
-    n = 140 if tier == "quick" else 6000
+    n = 200 if tier == "quick" else 6000
     cases = []
     for i in range(n):
         s = (seed * 2654435761 + i * 97) & 0x7FFFFFFF
         prof = [{"declare": 0.6, "reads": 0.0, "random": 0.0, "maxdepth": 3, "pC": 0.15, "pX": 0.1, "wlet": 0.25},
                 {"declare": 0.5, "reads": 0.5, "random": 0.0, "maxdepth": 2, "pC": 0.1, "echo": 1.0},
-                {"declare": 0.0, "reads": 0.0, "random": 0.0, "maxdepth": 4, "pC": 0.1, "pX": 0.15, "wlet": 0.3, "pbits": 0.1}][i % 3]
+                {"declare": 0.0, "reads": 0.0, "random": 0.0, "maxdepth": 4, "pC": 0.1, "pX": 0.15, "wlet": 0.3, "pbits": 0.1},
+                # variables and loop counters named like outputs the driver supplies, no reads at all: static must not care
+                {"declare": 0.0, "reads": 0.0, "shadow_out": 0.8, "scope_names": 0.9, "maxdepth": 3, "wlet": 0.4, "full_layout": True, "echo": 1.0},
+                # names that are out of scope where they are used (ended loops, repeat's n): reads of outputs of that name
+                {"declare": 0.2, "reads": 0.3, "scope_names": 0.9, "dead_names": 0.6, "shadow_out": 0.4, "maxdepth": 3, "wlet": 0.3, "full_layout": True}][i % 5]
         base = gen.gen_run_case("c15-%d" % i, s, prof)
         base["wdefault"] = 0
         base["faults"] = []
@@ -1374,3 +1419,97 @@ PROPS["C15"] = {
     "assumptions": ["Parser.v / Iter.v / Static.v model the crate (checked by this run)", "iterators own their state (audited syntactically)"],
     "trusted_base": [],
 }
+
+
+# C19, last sentence: "for tests loaded from a .dig file the count is relative to the start of that test's own source text":
+# .dig documents whose test sources start with blank lines; load_test(i) must equal parse(source i) + bind, lines included
+import families_c16 as _f16  # noqa: E402
+import gen_dig as _gen_dig  # noqa: E402
+_c19_base = PROPS["C19"]["cases"]
+PROPS["C19"]["cases"] = lambda seed, tier: _c19_base(seed, tier) + _gen_dig.cases((seed ^ 0xC19) & 0xFFFFFF, 80 if tier == "quick" else 3000, 0, 0)
+PROPS["C19"]["oracles"] = PROPS["C19"]["oracles"] + [_f16.c16_load_oracle]
+
+
+# ------------------------------------------------------------------ C14 / C08: both operands of every binary operator are evaluated
+
+def strict_cases(prefix):
+    """declare V = X op Y for every operator and every combination of 0 / 1 / Z / X returned by the driver for X and Y:
+    a virtual signal that reads a Z or X output is an error item, whatever the other operand is"""
+    cases = []
+    sigs = [{"name": "A", "typ": "I", "bits": 1, "default": "0"}, {"name": "P", "typ": "O", "bits": 8, "default": "-"},
+            {"name": "R", "typ": "O", "bits": 8, "default": "-"}]
+    vals = ["0", "1", "5", "Z", "X"]
+    k = 0
+    for op in gen.BINOPS:
+        for x in vals:
+            for y in vals:
+                src = "A V\ndeclare V = P %s R;\n1 X\n" % op
+                cases.append({"id": "%s-strict-%d" % (prefix, k), "kind": "run", "src": src, "sigs": sigs, "layout": [1, 2], "table": [[x, y]],
+                              "echo": 0, "wdefault": 0, "faults": [], "max": 10, "seed": 1, "strict": (op, x, y)})
+                k += 1
+    return cases
+
+
+def strict_oracle(case, trace):
+    info = case.get("strict")
+    if not info:
+        return
+    op, x, y = info
+    items = [r for t, r in trace if t == "ITEM"]
+    rows = rows_of(trace)
+    if x in ("Z", "X") or y in ("Z", "X"):
+        if rows or not any("UnexpectedValue" in it for it in items):
+            yield "declare V = P %s R with P=%s R=%s: a virtual signal reading a Z/X output must make the row an error item (got rows=%d items=%s)" % (op, x, y, len(rows), items[:1])
+        return
+    try:
+        want = py_eval(("bin", op, ("num", int(x)), ("num", int(y))), {})
+    except ZeroDivisionError:
+        if rows:
+            yield "division by zero in a virtual signal did not give an error item"
+        return
+    got = [o[1] for o in rows[0][2] if o[0] == "V"] if rows else None
+    if got != [str(want)]:
+        yield "declare V = P %s R with P=%s R=%s: value %s, expected %d" % (op, x, y, got, want)
+
+
+_c14_base = PROPS["C14"]["cases"]
+PROPS["C14"]["cases"] = lambda seed, tier: _c14_base(seed, tier) + strict_cases("c14")
+PROPS["C14"]["oracles"] = PROPS["C14"]["oracles"] + [strict_oracle]
+_c08_base = PROPS["C08"]["cases"]
+PROPS["C08"]["cases"] = lambda seed, tier: _c08_base(seed, tier) + strict_cases("c08")
+PROPS["C08"]["oracles"] = PROPS["C08"]["oracles"] + [strict_oracle]
+
+
+# ------------------------------------------------------------------ C17: several resets, same bounds in every segment; random in declarations
+
+def replay_cases(seed, tier):
+    rng = random.Random(seed ^ 0xC17)
+    cases = []
+    n = 60 if tier == "quick" else 3000
+    sigs = [{"name": "A", "typ": "I", "bits": 64, "default": "0"}, {"name": "Q", "typ": "O", "bits": 8, "default": "-"}]
+    for i in range(n):
+        nseg = rng.randrange(2, 5)
+        bounds = [rng.choice([2, 3, 10, 100, 2 ** 31, 2 ** 62]) for _ in range(rng.randrange(1, 5))]
+        use_decl = rng.random() < 0.4
+        lines = ["A Q V" if use_decl else "A Q"]
+        if use_decl:
+            lines.append("declare V = Q + random(%d);" % rng.choice([3, 10, 100]))
+        for sgm in range(nseg):
+            for b in bounds:
+                x = rng.random()
+                if x < 0.5:
+                    lines.append("(random(%d)) X%s" % (b, " X" if use_decl else ""))
+                elif x < 0.75:
+                    lines.append("let t = random(%d);" % b)
+                else:
+                    lines.append("(ite(1, random(%d), random(7))) X%s" % (b, " X" if use_decl else ""))
+            if sgm < nseg - 1:
+                lines.append("resetRandom;")
+        cases.append({"id": "c17-replay-%d" % i, "kind": "run", "src": "\n".join(lines) + "\n", "sigs": sigs, "layout": [1], "table": [["1"], ["2"]],
+                      "echo": 0, "wdefault": 0, "faults": [], "max": 1000, "seed": rng.randrange(0, 2 ** 32)})
+    return cases
+
+
+_c17_base = PROPS["C17"]["cases"]
+PROPS["C17"]["cases"] = lambda seed, tier: _c17_base(seed, tier) + replay_cases(seed, tier) + run_family("c17d", 100 if tier == "quick" else 4000, 0, [
+    {"random": 0.6, "declare": 1.0, "declare_random": True, "maxdepth": 2, "reads": 0.3, "wrow": 0.5}])(seed, "quick")
